@@ -167,6 +167,12 @@ LeavesG6 ==
   \o << CmpC("eq", SubE(2, InnerG6y[1], "an"), At(x, "ref")),
         CmpC("ne", At(x, "ref"), SubE(2, InnerG6y[2], "an")),
         InC(SubE(2, InnerG6y[1], "an"), At(x, "refs"), "contains") >>
+  \* correlated sub-queries: the inner condition depends on a variable of the enclosing query; `the` picks the
+  \* unique solution per binding of that variable (the harness makes y range over the whole heap, so x.ref is found once)
+  \o << CmpC("eq", At(x, "m"), At(SubE(2, CmpC("eq", y, At(x, "ref")), "the"), "n")),
+        CmpC("ge", At(x, "n"), At(SubE(2, CmpC("eq", y, At(x, "ref")), "the"), "m")),
+        CmpC("eq", SubE(2, CmpC("eq", At(y, "n"), At(x, "m")), "an"), At(x, "ref")),
+        InC(SubE(2, CmpC("lt", At(y, "n"), At(x, "n")), "an"), At(x, "refs"), "contains") >>
   \* plain conditions to combine with
   \o << CmpC("eq", At(x, "n"), At(y, "m")), CmpC("ge", At(x, "n"), LitI(1)), CmpC("ne", At(y, "n"), LitI(0)) >>
 
